@@ -211,13 +211,51 @@ def rule_b(ck, R):
         ck.verdict(ok, 'C04.b', fn, R.where(fn), 'first action is the gated %s' % via if ok else 'reaches the table before calling %s' % via)
 
 
+def loop_roles(R, ps):
+    """{id(loop node): role} of the loops of register_init, by what their iterations do - not by their position:
+    'area-order' / 'entry-order' (an iteration can end initialisation with the area / entry order or overlap code),
+    'clear' (zeroes area memory), 'check' (containment test and default loading), 'link' (searches the next area's first
+    entry).  A loop moved, or moved into a helper, keeps its role."""
+    codes = {v: n for n, v in R.u.enum_decls.get('RegisterInitCode', [])}
+    roles = {}
+    for p in ps:
+        if not p.loops:
+            continue
+        node = p.loops[-1][0]
+        inl = [e for e in p.calls() if e.inloop]
+        cd = code_of(p.ret) if p.end == 'return' else None
+        nm = codes.get(cd[1]) if cd is not None and cd[0] == 'c' else None
+        if nm in ('REG_INIT_AREA_INVALID_ORDER', 'REG_INIT_AREA_ADDRESS_OVERLAP'):
+            roles.setdefault(id(node), 'area-order')
+        elif nm in ('REG_INIT_ENTRY_INVALID_ORDER', 'REG_INIT_ENTRY_ADDRESS_OVERLAP'):
+            roles.setdefault(id(node), 'entry-order')
+        elif nm in ('REG_INIT_ENTRY_IN_MEMORY_HOLE', 'REG_INIT_ENTRY_INVALID_DEFAULT'):
+            roles[id(node)] = 'check'
+        if p.end == 'loopback':
+            names = {e.name for e in inl}
+            if 'memset' in names and id(node) not in roles:
+                roles[id(node)] = 'clear'
+            if 'ra_first_entry_of_next' in names and id(node) not in roles:
+                roles[id(node)] = 'link'
+            if names & {'reg_entry_is_in_memory', 'register_set', 'register_set_unsafe', 'register_setx'} and roles.get(id(node)) in (None, 'clear'):
+                roles[id(node)] = 'check'
+    return roles
+
+
+def role_seq(roles, p, drop=('clear', 'link', None)):
+    return [roles.get(id(nd)) for nd, _ in p.loops if roles.get(id(nd)) not in drop]
+
+
 def rule_cd(ck, R, eng, ps):
     where = R.where('register_init')
     E = R.E
-    expect_loops = {'REG_INIT_TOO_MANY_AREAS': 0, 'REG_INIT_TOO_MANY_ENTRIES': 0, 'REG_INIT_NO_AREAS': 0,
-                    'REG_INIT_AREA_INVALID_ORDER': 1, 'REG_INIT_AREA_ADDRESS_OVERLAP': 1,
-                    'REG_INIT_ENTRY_INVALID_ORDER': 2, 'REG_INIT_ENTRY_ADDRESS_OVERLAP': 2,
-                    'REG_INIT_ENTRY_IN_MEMORY_HOLE': 4, 'REG_INIT_ENTRY_INVALID_DEFAULT': 4}
+    # which checks have been passed when a code is decided (the loops that zero memory or link entries decide nothing and
+    # may stand anywhere between them)
+    expect_loops = {'REG_INIT_TOO_MANY_AREAS': [], 'REG_INIT_TOO_MANY_ENTRIES': [], 'REG_INIT_NO_AREAS': [],
+                    'REG_INIT_AREA_INVALID_ORDER': ['area-order'], 'REG_INIT_AREA_ADDRESS_OVERLAP': ['area-order'],
+                    'REG_INIT_ENTRY_INVALID_ORDER': ['area-order', 'entry-order'], 'REG_INIT_ENTRY_ADDRESS_OVERLAP': ['area-order', 'entry-order'],
+                    'REG_INIT_ENTRY_IN_MEMORY_HOLE': ['area-order', 'entry-order', 'check'], 'REG_INIT_ENTRY_INVALID_DEFAULT': ['area-order', 'entry-order', 'check']}
+    roles = loop_roles(R, ps)
     byname = {}
     for p in ps:
         cd = code_of(p.ret)
@@ -233,18 +271,18 @@ def rule_cd(ck, R, eng, ps):
             continue
         bad = None
         for p in lst:
-            if len(p.loops) != nloops:
-                bad = '%s is decided after %d loops, expected %d (order of the rule checks changed)' % (nm, len(p.loops), nloops)
+            if role_seq(roles, p) != nloops:
+                bad = '%s is decided after the checks %s, expected %s (order of the rule checks changed)' % (nm, role_seq(roles, p), nloops)
             pos = None
             for e_ in p.stores():
                 if e_.name[0] == 'f' and e_.name[1] == ('&', ('f', ('&', rv), 'pos')):
                     pos = e_.args[0]
-            if nloops >= 1:
+            if nloops:
                 lmap = p.loops[-1][1]
                 idx = [h for k, h, pre in loop_counter(ps, p)]
                 if pos is None or strip_cast(pos) not in idx:
                     bad = bad or '%s reports position %s, not the index of the offending item' % (nm, fmt(pos) if pos else None)
-        ck.verdict(bad is None, 'C04.c', 'code:' + nm, where, '%s decided in check group %d, reporting the loop index' % (nm, nloops) if bad is None else bad)
+        ck.verdict(bad is None, 'C04.c', 'code:' + nm, where, '%s decided after the checks %s, reporting the loop index' % (nm, nloops or 'none') if bad is None else bad)
     # area count == 0 -> NO_AREAS ; counts at maximum -> TOO_MANY
     for nm, cond_txt in (('REG_INIT_NO_AREAS', 'areas == 0'),):
         lst = byname.get(nm, [])
@@ -252,12 +290,12 @@ def rule_cd(ck, R, eng, ps):
         ck.verdict(ok, 'C04.d', 'pred:no-areas', where, 'a table without areas is refused' if ok else 'NO_AREAS not conditioned on area count == 0')
     # order / overlap predicates with the loop invariant previous == item[i-1]
     for group, arr, sizeexpr, order_nm, overlap_nm in (
-            (1, 'area', 'size', 'REG_INIT_AREA_INVALID_ORDER', 'REG_INIT_AREA_ADDRESS_OVERLAP'),
-            (2, 'entry', None, 'REG_INIT_ENTRY_INVALID_ORDER', 'REG_INIT_ENTRY_ADDRESS_OVERLAP')):
+            ('area-order', 'area', 'size', 'REG_INIT_AREA_INVALID_ORDER', 'REG_INIT_AREA_ADDRESS_OVERLAP'),
+            ('entry-order', 'entry', None, 'REG_INIT_ENTRY_INVALID_ORDER', 'REG_INIT_ENTRY_ADDRESS_OVERLAP')):
         fieldname = 'base' if arr == 'area' else 'address'
         op = [p for p in byname.get(order_nm, [])]
         ov = [p for p in byname.get(overlap_nm, [])]
-        lb = [p for p in ps if p.end == 'loopback' and len(p.loops) == group]
+        lb = [p for p in ps if p.end == 'loopback' and p.loops and roles.get(id(p.loops[-1][0])) == group]
         bad = None
         if not op or not ov or not lb:
             ck.violation('C04.d', 'pred:%s' % arr, where, 'order/overlap/continue paths of the %s loop not found' % arr)
@@ -380,14 +418,29 @@ def rule_ef(ck, R, eng, ps):
     where = R.where('register_init')
     E = R.E
     # f: memset of memory-backed areas (loop 3) precedes default loading (loop 4)
+    roles = loop_roles(R, ps)
     ms = [p for p in ps if p.calls('memset')]
     bad = None
     if not ms:
         bad = 'area memory is not cleared'
+    # every path that loads a default (or reaches the containment / default loop) has been through the clearing loop
+    for p in ps:
+        seq = [roles.get(id(nd)) for nd, _ in p.loops]
+        if 'check' in seq and ('clear' not in seq or seq.index('clear') > seq.index('check')):
+            bad = bad or 'defaults are loaded (containment / default loop reached) without the area memory having been cleared before'
+    AREAS = ('f', T, 'areas')
     for p in ms:
         m = p.calls('memset')[0]
-        if len(p.loops) != 3:
-            bad = 'memory cleared in check group %d, expected 3 (before default loading)' % len(p.loops)
+        # the clearing loop runs over the areas of the table as it is NOW: its bound is the count this call has determined
+        # (reg_count_areas), not the field as an earlier initialisation - or nobody - left it
+        if m.inloop and p.loops:
+            cl = [lm for nd, lm in p.loops if roles.get(id(nd)) == 'clear']
+            idx = [h for k, h, pre in loop_counter(ps, p)] if roles.get(id(p.loops[-1][0])) == 'clear' else []
+            for c in p.cond_terms():
+                if c[0] == 'cmp' and c[1] == '<' and strip_cast(c[2]) in idx and strip_cast(c[3]) == AREAS:
+                    bad = bad or ('the loop that zeroes the area memory runs while index < t->areas, read BEFORE this call has counted the areas (%s): it covers the areas of an '
+                                  'earlier initialisation - none at all for a fresh table - and the words no default is loaded into keep what the memory held'
+                                  % cast.where(m.node))
         ap = None
         if m.args[0][0] == 'f' and m.args[0][2] == 'mem':
             ap = m.args[0][1]
@@ -405,7 +458,7 @@ def rule_ef(ck, R, eng, ps):
     bad = None
     seen_set = False
     for p in ps:
-        if len(p.loops) != 4:
+        if not p.loops or roles.get(id(p.loops[-1][0])) != 'check':
             continue
         rs = p.calls('register_set')
         uns = p.calls('register_set_unsafe') + p.calls('register_setx')
@@ -438,7 +491,7 @@ def rule_ef(ck, R, eng, ps):
     # INITIALISED set before default loading (register_set is gated) but DURING_INIT still on
     # e: link
     bad = None
-    link = [p for p in ps if len(p.loops) == 5 and p.end == 'loopback']
+    link = [p for p in ps if p.loops and roles.get(id(p.loops[-1][0])) == 'link' and p.end == 'loopback']
     pw = pointer_walk(eng, link)
     if pw:
         ck.broken('C04.e', 'link', where, 'the link loop steps the pointer %s; the rule reads index-based table walks only' % pw)
